@@ -17,6 +17,7 @@ import os
 import re
 import shutil
 import subprocess
+import time
 
 from nvlib import engine as E
 from nvlib.check import Prop
@@ -101,9 +102,9 @@ def depth(g, p):
     return 1 + max([depth(g, q) for _, q in inh] or [0])
 
 
-def lpc_source(g, P, base):
+def lpc_source(g, P, base, savebin=False):
     fnum = lambda f: int(re.sub(r"\D", "", f) or 0)
-    out = ['#include "/include/vcommon.h"']
+    out = (["#pragma save_binary"] if savebin else []) + ['#include "/include/vcommon.h"']
     var_done = False
     n_inh = len(P.inherits())
     seen_inh = 0
@@ -380,7 +381,7 @@ class C07(Prop):
                 "NV.C07.frame_offsets_correct", "NV.C07.call_other_origin_is_call_other", "NV.C07.call_origin_consumed",
                 "NV.C07.built_alias_flags_agree", "NV.C07.built_flags_agree", "NV.C07.built_inherits_in_world", "NV.C07.inherit_flags_rule_is_spec",
                 "NV.C07.find_func_entry_compress", "NV.C07.compressWith_lookup", "NV.C07.fillGo_spec", "NV.C07.inhSearch_spec",
-                "NV.C07.remake_expected",
+                "NV.C07.remake_expected", "NV.C07.chaseC_eq_chase",
                 "NV.C07.slotOf_formula", "NV.C07.cacheMask_is_size_minus_one", "NV.C07.slotOf_lt", "NV.C07.find_masks_are_source",
                 "NV.C07.name_masks_are_source", "NV.C07.cmp_marker_is_byte_max"]
     witness_theorems = ["NV.C07.Witness.old_cache_not_transparent", "NV.C07.Witness.origin_stored_once_runs_static",
@@ -405,16 +406,23 @@ class C07(Prop):
     search_n = 600
     design_ref = "5/C07"
     technique = ("Lean 4 proof (binary search + inherit recursion vs. reference resolver, cache invariant by induction over "
-                 "histories, offset sums along inherit chains) + translator-generated flag bits/origins/cache size + "
-                 "three-way correspondence real driver / model on the REAL dumped tables / specification on the abstract graph")
+                 "histories, offset sums along inherit chains, round trip of the compressed runtime function table incl. its "
+                 "256-entry overflow branch) + translator: flag bits / origins / cache size / NAME_MASK / NAME_NO_CODE from a probe, "
+                 "function_visible, the cache hash of apply_low and the flag tests of find_function from the clang AST, with "
+                 "bridging lemmas + three-way correspondence real driver / model-BUILT tables and model-COMPRESSED tables vs the "
+                 "dumped real ones / specification on the abstract graph")
     level_text = ("Lean 4 theorems about an executable model of src/apply.c (find_function, function_visible, the apply cache, "
-                  "apply_low) and src/frame.c (NAME_INHERITED chasing) for all well-formed program tables and all call "
-                  "histories; well-formedness is a decidable predicate evaluated on every real program table dumped by the "
-                  "harness; the compiler's table construction is validated per generated program (translation validation), "
-                  "not proved")
-    level_note = ("trusted: Lean kernel; extract.py; the harness' table dump and bytecode operand decoding; the correspondence is "
-                  "differential (generated inheritance graphs and call histories only); copy_functions / overload_function / "
-                  "compress_function_tables are not modelled")
+                  "apply_low, the call_origin protocol), src/frame.c (NAME_INHERITED chasing) and compress_function_tables / "
+                  "FIND_FUNC_ENTRY / find_func_entry (every slot read back from the compressed table is the uncompressed entry; "
+                  "frames chased through compressed tables equal frames chased through uncompressed ones) for all program tables "
+                  "satisfying decidable well-formedness predicates and all call histories; the predicates (wfFind, wfSlots, cmpWF) "
+                  "are evaluated on every real / model-built table; the compiler's table construction is modelled and compared per "
+                  "generated program (translation validation) with the alias-flag and inherit-order theorems proved for all programs")
+    level_note = ("trusted: Lean kernel; extract.py and the AST translators in props/c07.py; the harness' table dump (tbl through "
+                  "FIND_FUNC_ENTRY, cmp = raw compressed_offset_table_t + stored entries) and bytecode operand decoding; the "
+                  "correspondence is differential (generated inheritance graphs and call histories, wide programs around the "
+                  "255-entry limit of the compressed index only as boundary cases); 16-bit truncation of function indices is not "
+                  "modelled (tables have < 65536 slots)")
     rule = ("cases = corpus + boundary list + seeded random inheritance graphs (2-7 programs, depth <= 4, up to 3 inherits per "
             "program with private/static/public/protected modifiers, overriding, prototypes before and after inherits, "
             "`::f` / `A::f` / local / function-pointer calls in bodies) x 12-45 calls by name from call_other (shared and "
@@ -429,12 +437,17 @@ class C07(Prop):
                    "full `built_flags_are_spec_visibility` are NOT proved for all programs: WF and the per-slot agreement with the "
                    "specification are evaluated on every dumped table instead; proved are the epilog alias theorem and the "
                    "one-level flag-inheritance table",
-                   "compress_function_tables / FIND_FUNC_ENTRY are validated as a round trip (model builds uncompressed entries, the "
-                   "harness dumps through FIND_FUNC_ENTRY), not modelled",
+                   "compress_function_tables / FIND_FUNC_ENTRY ARE modelled and the round trip is proved under the decidable cmpWF "
+                   "(inherit offsets sorted, an omitted slot names the last inherit not beyond it); that every table the construction "
+                   "model builds satisfies cmpWF is evaluated per program (`!cmpwf` marker in the compared cmp line), not proved; "
+                   "copy_and_sort_function_table's renumbering INSIDE the compressed layout and the readers in binaries.c / debug.c "
+                   "are covered only through the dumped result",
                    "simul_efun dispatch, efun function pointers and function pointers evaluated by another object "
                    "(ORIGIN_FUNCTIONAL, bind()) are not exercised; the heart_beat origin is (call hb)",
                    "varargs / argument count normalisation (setup_variables) is outside the model",
-                   "program deallocation and reuse of a program_t address while a cache entry still names it",
+                   "program deallocation and reuse of a program_t address while a cache entry still names it (the id test of the "
+                   "hit path): cannot be exercised under ASan, whose quarantine never hands the address out again",
+                   "find_function_by_name / ffbn_recurse / function_exists (second copy of the search)",
                    "programs loaded from saved binaries (see C17)"]
 
     def gen_extra(self, ctx, bdir):
@@ -443,7 +456,7 @@ class C07(Prop):
     # ---- implementation side ---------------------------------------------------------------
     def prepare(self, ctx):
         self.exe = E.compile_harness("c07", [os.path.join(E.VERIF, "harness/c07/c07.c")])
-        self.conf = E.make_mudlib(ctx.rundir)
+        self.conf = E.make_mudlib(ctx.rundir, master="/c07/master.c", extra_conf="SaveBinaryDir /c07bin\n")
         self.mud = os.path.join(ctx.rundir, "mudlib")
         self.last_impl = {}
 
@@ -458,11 +471,18 @@ class C07(Prop):
             path = os.path.join(self.mud, "c07", "g", d)
             if os.path.exists(path):
                 shutil.rmtree(path)
+            # binaries saved by an earlier run of a case with this id must never be loaded
+            shutil.rmtree(os.path.join(self.mud, "c07bin", "c07", "g", d), ignore_errors=True)
             os.makedirs(path)
             g, order = parse_graph(c.lines)
+            savebin = any(l.strip() == "savebin" for l in c.lines)
+            old = time.time() - 7200
             for n in order:
-                with open(os.path.join(path, n + ".c"), "w") as f:
-                    f.write(lpc_source(g, g[n], base))
+                fn = os.path.join(path, n + ".c")
+                with open(fn, "w") as f:
+                    f.write(lpc_source(g, g[n], base, savebin))
+                if savebin:
+                    os.utime(fn, (old, old))        # well older than any binary written for it
             lines = []
             for l in c.lines:
                 t = l.split()
@@ -478,6 +498,7 @@ class C07(Prop):
         res = E.run_harness(self.exe, self.conf, hc, ctx.rundir)
         for c in cases:
             shutil.rmtree(os.path.join(self.mud, "c07", "g", self._dir_of(c.id)), ignore_errors=True)
+            shutil.rmtree(os.path.join(self.mud, "c07bin", "c07", "g", self._dir_of(c.id)), ignore_errors=True)
         res = {k: self.canon(v) for k, v in res.items()}
         self.last_impl.update(res)
         return res
@@ -497,7 +518,7 @@ class C07(Prop):
             impl = self.last_impl.get(c.id)
             if impl is None:
                 impl = self.run_impl(ctx, [c]).get(c.id, [])
-            dumped = [l for l in impl if l.split(" ", 1)[0] in ("nm", "tbl", "cmp", "obj") or re.match(r"ld \S+ !fail$", l)]
+            dumped = [l for l in impl if l.split(" ", 1)[0] in ("nm", "tbl", "cmp", "obj", "reload") or re.match(r"ld \S+ !fail$", l)]
             ms.append(E.Case(c.id, c.lines + ["--"] + dumped))
         return E.nvdrive(self.id, "model", E.cases_text(ms))
 
